@@ -136,7 +136,55 @@ def check_long(case, ev):
     return None
 
 
-REPLAY = {"lines": check_line, "files": check_file, "fuzz": check_line, "long": check_long}
+def check_dirfaults(case, ev):
+    """A directory in which some entries cannot even be opened (dangling symbolic link) or whose output
+    directory cannot be made (a plain file sits at that path): the run must end normally and every other
+    file must be written completely.  case: {names: [relative paths], faults: {path: kind}, features, salt}"""
+    from netconan.anonymize_files import anonymize_files
+
+    pwd, ip, words, asn = case["features"]
+    d = tempfile.mkdtemp(prefix="vf-c14d-")
+    try:
+        src, dst = os.path.join(d, "in"), os.path.join(d, "out")
+        os.makedirs(dst)
+        good = {}
+        for k, rel in enumerate(case["names"]):
+            p_ = os.path.join(src, rel)
+            os.makedirs(os.path.dirname(p_), exist_ok=True)
+            kind = case["faults"].get(rel)
+            if kind == "dangling":
+                os.symlink(os.path.join(d, "no-such-target-%d" % k), p_)
+                continue
+            text = "".join("hostname r%d-%d\npassword Secret%dx%d\n ip address 10.%d.%d.1 255.255.255.0\n" % (k, j, k, j, k, j) for j in range(3 + k))
+            with open(p_, "w") as fh:
+                fh.write(text)
+            if kind == "outdir-is-a-file":
+                # the directory this file's output belongs into exists as a plain file
+                top = rel.split("/")[0]
+                if not os.path.exists(os.path.join(dst, top)):
+                    with open(os.path.join(dst, top), "w") as fh:
+                        fh.write("not a directory\n")
+                continue
+            good[rel] = text
+        blocked_tops = {rel.split("/")[0] for rel, kd in case["faults"].items() if kd == "outdir-is-a-file"}
+        good = {r: t for r, t in good.items() if r.split("/")[0] not in blocked_tops}
+        with core.capture_logs(logging.ERROR) as records:
+            _, exc = guarded(anonymize_files, src, dst, bool(pwd), bool(ip), salt=case["salt"], sensitive_words=list(WORDS) if words else None, as_numbers=list(ASNS) if asn else None)
+        ev.case(case, bool(case["faults"]) and len(good) >= 2, ["directory-with-unopenable-entries"] + sorted(set(case["faults"].values())))
+        if exc is not None:
+            return core.exc_finding(exc, case, "dir/")
+        for rel, text in sorted(good.items()):
+            p_ = os.path.join(dst, rel)
+            if not os.path.isfile(p_):
+                return Finding("dir/no-output-for-a-good-file-next-to-an-unopenable-one", "no output for %r (entries %r, faults %r); ERROR records: %r" % (rel, case["names"], case["faults"], [m for _, m in records][:3]), case)
+            if open(p_).read().count("\n") != text.count("\n"):
+                return Finding("dir/output-truncated-next-to-an-unopenable-entry", "%r: %d lines in, %d out" % (rel, text.count("\n"), open(p_).read().count("\n")), case)
+    finally:
+        shutil.rmtree(d, ignore_errors=True)
+    return None
+
+
+REPLAY = {"dirfaults": check_dirfaults, "lines": check_line, "files": check_file, "fuzz": check_line, "long": check_long}
 
 # ---------------------------------------------------------------- generators
 
@@ -230,6 +278,11 @@ def _case(draw):
         asns = draw(st.sampled_from([["65000", " 65001"], ["065002", "65002"], ["123", "123"], ["7 ", "65001"], ["00", "0"]]))
         line = line + " " + draw(st.sampled_from(asns)).strip() + " " + draw(st.sampled_from(["65001", "065002", "0", "7"]))
         feats[3] = True
+    elif draw(st.integers(0, 5)) == 0:
+        # lists holding the registry's special numbers (AS_TRANS, documentation ranges, block ends)
+        asns = draw(st.lists(st.sampled_from(["23456", "0", "65535", "65536", "64496", "64511", "64512", "65551", "4199999999", "4200000000", "4294967294", "4294967295"]), min_size=1, max_size=4, unique=True))
+        line = line + " " + " ".join(draw(st.lists(st.sampled_from(asns), min_size=1, max_size=3)))
+        feats[3] = True
     return {"line": line, "salt": draw(_salt), "features": feats, "undo": draw(st.integers(0, 5)) == 0, "B": draw(st.sampled_from([8, 8, 0, 32])), "gen": gen, "nonl": draw(st.integers(0, 4)) == 0, "asns": asns, "reserved": draw(st.lists(st.sampled_from(WORDS + ASNS + (asns or []) + ["LabKey", "permit", "Zorgon-gw", "x"]), min_size=1, max_size=5, unique=True)) if draw(st.integers(0, 3)) == 0 else None}
 
 
@@ -251,6 +304,21 @@ def t_files(shard, nshards, seed, ev, known, n=100):
     return core.hyp_drive(_file_case(), check_file, n, seed, ev, known, check_name="files", max_keys=6)
 
 
+@st.composite
+def _dirfault_case(draw):
+    names = draw(st.lists(st.sampled_from(["a.cfg", "b.cfg", "m.cfg", "z.cfg", "sub/a.cfg", "sub/k.cfg", "t/y.cfg", "t/deep/x.cfg", "u/only.cfg"]), min_size=3, max_size=8, unique=True))
+    faults = {}
+    for rel in names:
+        kd = draw(st.sampled_from([None, None, None, "dangling", "outdir-is-a-file" if "/" in rel else None]))
+        if kd:
+            faults[rel] = kd
+    return {"names": names, "faults": faults, "features": draw(st.lists(st.booleans(), min_size=4, max_size=4).filter(any)), "salt": draw(st.sampled_from(["s", "", "Tsalt"]))}
+
+
+def t_dirfaults(shard, nshards, seed, ev, known, n=60):
+    return core.hyp_drive(_dirfault_case(), check_dirfaults, n, seed, ev, known, check_name="dirfaults")
+
+
 def t_long(shard, nshards, seed, ev, known, n4=6000, n6=1200):
     cases = [{"salt": ["s", "", "Tsalt", "_x"][k % 4], "n4": n4, "n6": n6, "start4": core.derive("l4", seed, k) & 0xFFFFFFFF, "start6": core.derive("l6", seed, k) << 64, "stride": (core.derive("st", seed, k) & 0xFFFFFF) | 0x10001, "B": [8, 0, 8, 32][k % 4]} for k in range(nshards) if k % nshards == shard]
     return core.enum_drive(cases, check_long, ev, known, "long")
@@ -261,6 +329,7 @@ def plan(tier):
     tasks = [
         Task("lines", t_lines, shards=8 if q else 16, n=1500 if q else 80000),
         Task("files", t_files, shards=2 if q else 16, n=150 if q else 5000),
+        Task("dirfaults", t_dirfaults, shards=1 if q else 8, n=80 if q else 1500),
         Task("long", t_long, shards=2 if q else 8, n4=6000 if q else 40000, n6=2000 if q else 8000),
     ]
     if not q:
